@@ -36,6 +36,8 @@ type gramCase struct {
 	Toks      []string `json:"toks"`
 	Prods     []string `json:"prods"`
 	Rare      []string `json:"rare"`
+	Heavy     []string `json:"heavy"` // weighted productions used (scope-bearing / in-carrying alternatives, operators)
+	Cost      int      `json:"cost"`  // summed weight of the derivation
 	AllProds  []string `json:"allprods"`
 	RareProds []string `json:"rareprods"`
 }
@@ -147,7 +149,59 @@ func join(toks []string) string {
 	return sb.String()
 }
 
-var grammars = []string{"asi", "regexdiv", "idents", "cover", "annexb", "numsep", "escapes", "class"}
+// longest TLC runs first (the JVMs run side by side)
+var grammars = []string{"forhead", "asi", "cover", "class", "scopes", "inop", "idents", "regexdiv", "annexb", "numsep", "escapes"}
+
+// structural grammars: production names of the weighted alternatives become key fields ("p:<name>": true) so that a
+// known finding can be identified by the construct and its clause position instead of by one string
+var structural = map[string]bool{"forhead": true, "inop": true, "scopes": true}
+
+// quick tier: seeded sub-sampling.  Every string of a small grammar and every string whose derivation weight is below the
+// grammar's bound is evaluated; of the others (all strings of the three big lexical grammars, the maximum-weight strings of
+// the structural grammars: two heavy alternatives / depth-2 nestings) a seeded fraction, always keeping at least one string
+// per production.  The thorough tier evaluates everything.
+var quickRate = map[string]float64{"asi": 0.3, "cover": 0.3, "class": 0.3, "forhead": 0.3, "scopes": 0.5, "inop": 0.6}
+
+func subsample(r *core.Run, byText map[string]*gramCase, order []string) []string {
+	maxCost := map[string]int{}
+	for _, k := range order {
+		c := byText[k]
+		if c.Cost > maxCost[c.Grammar] {
+			maxCost[c.Grammar] = c.Cost
+		}
+	}
+	perm := r.Rand.Perm(len(order))
+	covered := map[string]bool{}
+	keep := make([]bool, len(order))
+	for _, i := range perm {
+		c := byText[order[i]]
+		rate, sampled := quickRate[c.Grammar]
+		take := !sampled || c.Cost < maxCost[c.Grammar] || r.Rand.Float64() < rate
+		for _, pn := range c.Prods {
+			if !covered[c.Grammar+":"+pn] {
+				take = true
+			}
+		}
+		if take {
+			keep[i] = true
+			for _, pn := range c.Prods {
+				covered[c.Grammar+":"+pn] = true
+			}
+		}
+	}
+	var out []string
+	for i, k := range order {
+		if keep[i] {
+			out = append(out, k)
+		}
+	}
+	return out
+}
+
+func isPanic(msg string) bool {
+	return strings.Contains(msg, "panic:") || strings.Contains(msg, "Internal error") || strings.Contains(msg, "Expected scope") ||
+		strings.Contains(msg, "runtime error")
+}
 
 // Forms esbuild deliberately does not support although V8 accepts them (analysed at first occurrence; see
 // the report).  A string is exempted from the "valid input is accepted" clause only if the esbuild error
@@ -217,11 +271,16 @@ func Run(r *core.Run) {
 	var mu sync.Mutex
 	var cases []gramCase
 	allProds := map[string]map[string]bool{}
-	core.Parallel(len(grammars), 4, func(i int) {
+	grammars := grammars
+	if only := os.Getenv("VERIF_C13_ONLY"); only != "" { // development aid: restrict the run to some sub-grammars
+		grammars = strings.Split(only, ",")
+		r.Assume("DEVELOPMENT RUN restricted to the sub-grammars " + only)
+	}
+	core.Parallel(len(grammars), 8, func(i int) {
 		g := grammars[i]
 		var local []gramCase
 		tlcrun.MustHold(r, tlcrun.Options{
-			Module: "JsGrammar", Config: fmt.Sprintf("JsGrammar.%s.%s.cfg", g, tier), Workers: 2, TimeoutSec: r.Pick(1800, 3600), HeapGB: 4,
+			Module: "JsGrammar", Config: fmt.Sprintf("JsGrammar.%s.%s.cfg", g, tier), Workers: 1, TimeoutSec: r.Pick(1800, 3600), HeapGB: 4,
 			OnCase: func(raw []byte) {
 				var c gramCase
 				if err := json.Unmarshal(raw, &c); err != nil {
@@ -254,6 +313,7 @@ func Run(r *core.Run) {
 		if old, ok := byText[k]; ok {
 			old.Prods = append(old.Prods, c.Prods...)
 			old.Rare = append(old.Rare, c.Rare...)
+			old.Heavy = append(old.Heavy, c.Heavy...)
 			continue
 		}
 		byText[k] = c
@@ -264,6 +324,16 @@ func Run(r *core.Run) {
 	if len(order) == 0 {
 		r.Infra("no strings derived")
 		return
+	}
+
+	derived := map[string]int{}
+	for _, k := range order {
+		derived[byText[k].Grammar]++
+	}
+	r.Set("strings_derived_per_grammar", derived)
+	if !r.Thorough() {
+		order = subsample(r, byText, order)
+		r.Logf("quick tier: seeded sub-sample of %d strings", len(order))
 	}
 
 	evalStrings(r, byText, order, cfgs, allProds)
@@ -333,6 +403,16 @@ func evalStrings(r *core.Run, byText map[string]*gramCase, order []string, cfgs 
 				nDisagree++
 			}
 			key := map[string]interface{}{"grammar": c.Grammar, "input": ev.src, "config": cf.Name(), "error": "", "output_error": ""}
+			if structural[c.Grammar] {
+				for _, h := range c.Heavy {
+					key["p:"+h] = true
+				}
+				for _, pn := range c.Prods {
+					if strings.HasPrefix(pn, "sc-") || strings.HasPrefix(pn, "io-") || strings.HasPrefix(pn, "fh-") || strings.HasPrefix(pn, "init-") || strings.HasPrefix(pn, "lhs-") {
+						key["p:"+pn] = true
+					}
+				}
+			}
 			detail := map[string]interface{}{"case": c, "input": ev.src, "config": cf, "input_valid_acorn": in.Acorn, "input_valid_v8": in.V8,
 				"acorn_error": in.AErr, "v8_error": in.VErr}
 			if inValid {
@@ -342,6 +422,9 @@ func evalStrings(r *core.Run, byText map[string]*gramCase, order []string, cfgs 
 			if o.err != "" {
 				if !inValid {
 					nRejectedInvalid++
+					if isPanic(o.err) {
+						r.Inc("panics_on_inputs_the_references_reject", 1)
+					}
 					continue
 				}
 				exempt := false
@@ -357,7 +440,14 @@ func evalStrings(r *core.Run, byText map[string]*gramCase, order []string, cfgs 
 				key["check"] = "accepts-valid-input"
 				key["error"] = o.err
 				detail["esbuild_error"] = o.err
-				r.Violation(key, fmt.Sprintf("esbuild rejects a program that V8 and acorn accept as %s: %q: %s", cf.Goal, ev.src, o.err), detail)
+				how := "rejects"
+				if isPanic(o.err) {
+					// an internal failure (scope stack mismatch between the parse and visit passes, nil dereference ...) reported as a
+					// build error: a rejection of valid input; the message carries addresses, so the key gets a stable text
+					key["error"] = "internal error (panic)"
+					how = "fails with an internal error on"
+				}
+				r.Violation(key, fmt.Sprintf("esbuild %s a program that V8 and acorn accept as %s: %q: %s", how, cf.Goal, ev.src, o.err), detail)
 				continue
 			}
 			nAccepted++
